@@ -96,3 +96,29 @@ example : parseIntGo 32 (formatIntGo (-2147483648)) = some (-2147483648) := by d
 example : parseIntGo 32 "2147483648".toList = none := by decide
 
 end Goag.Prim
+
+namespace Goag.Prim
+
+/-- in range for the declared width (`bits` 0 = plain `integer`, 64-bit) -/
+def InRange (bits : Nat) (v : Int) : Prop :=
+  -(2 ^ ((if bits = 0 then 64 else bits) - 1) : Int) ≤ v ∧ v < (2 ^ ((if bits = 0 then 64 else bits) - 1) : Int)
+
+/-- **Arrays** (query / header parameters and response headers that are arrays of integers): the
+    element-wise format of any list of in-range values parses back element-wise to that list —
+    no element lost, reordered or merged. -/
+theorem parseInts_formatInts (bits : Nat) (vs : List Int) (h : ∀ v ∈ vs, InRange bits v) :
+    (vs.map formatIntGo).mapM (parseIntGo bits) = some vs := by
+  induction vs with
+  | nil => rfl
+  | cons v t ih =>
+    have hv := h v List.mem_cons_self
+    have ht := ih (fun x hx => h x (List.mem_cons_of_mem _ hx))
+    simp only [List.map_cons, List.mapM_cons, parseInt_formatInt bits v hv.1 hv.2, ht]
+    rfl
+
+theorem parseBools_formatBools (bs : List Bool) : (bs.map formatBoolGo).mapM parseBoolGo = some bs := by
+  induction bs with
+  | nil => rfl
+  | cons b t ih => simp only [List.map_cons, List.mapM_cons, parseBool_formatBool, ih]; rfl
+
+end Goag.Prim
